@@ -30,8 +30,12 @@ func (k DefKind) String() string {
 }
 
 type Program struct {
-	Files []*File // Files[0] is the root file
-	seq   int
+	Files   []*File // Files[0] is the root file
+	Invalid string  // non-empty: what makes the program uncompilable
+	seq     int
+
+	sameNames bool
+	curFile   *File
 }
 
 type File struct {
@@ -146,6 +150,11 @@ type Options struct {
 	Defaults     bool
 	DeepTypedefs bool
 	GoNames      bool // names that stress the Go generator (fmt, errors, ...)
+	ConstRefs    bool // constants and defaults may refer to other constants / enum items
+	Dotted       bool // local definitions with dotted names
+	Invalid      bool // inject one unresolvable or ill-typed reference (compile must fail)
+	NoServices   bool
+	Recursive    bool // recursive types: a struct reaching itself through typedef chains / containers / other structs
 }
 
 func ch(label string, n int) int { return simrt.Choice(label, n) }
@@ -191,13 +200,16 @@ func Gen(o Options) *Program {
 		}
 	}
 	// definitions, created leaf files first so that includers can refer to them
+	p.sameNames = o.SameNames
 	for i := nf - 1; i >= 0; i-- {
 		f := p.Files[i]
+		p.curFile = f
 		nd := 1 + ch("prog.defs", o.MaxDefs)
 		for k := 0; k < nd; k++ {
 			p.genDef(f, o)
 		}
 	}
+	p.curFile = nil
 	if o.WantService {
 		root := p.Files[0]
 		has := false
@@ -210,11 +222,142 @@ func Gen(o Options) *Program {
 			p.genService(root, o)
 		}
 	}
+	if o.Recursive && simrt.Flip("prog.recursive", 0.4) {
+		p.addRecursion()
+	}
+	if o.Dotted && simrt.Flip("prog.dotted", 0.25) {
+		p.addDotted(o)
+	}
+	if o.Invalid && simrt.Flip("prog.invalid", 0.15) {
+		p.injectInvalid()
+	}
 	// textual order of definitions is a choice (creation order by default)
 	for _, f := range p.Files {
 		shuffle(f.Defs, "prog.def-order")
 	}
 	return p
+}
+
+// addRecursion makes a struct reach itself: through a chain of 1-3 typedefs
+// (possibly in another file that includes, or is included by, the struct's
+// file... kept to the same file or a cyclic include pair), optionally wrapped
+// in a container, or through a second struct.
+func (p *Program) addRecursion() {
+	var structs []*Def
+	for _, f := range p.Files {
+		for _, d := range f.Defs {
+			if d.Kind == KStruct {
+				structs = append(structs, d)
+			}
+		}
+	}
+	if len(structs) == 0 {
+		return
+	}
+	s := structs[ch("rec.struct", len(structs))]
+	f := p.Files[s.File]
+	target := &TypeRef{Ref: &Ref{s.File, s.Name}}
+	n := ch("rec.chain", 4) // 0..3 typedefs between the field and the struct
+	for i := 0; i < n; i++ {
+		td := p.add(f, &Def{Kind: KTypedef, Name: p.name("Rt"), Type: target})
+		target = &TypeRef{Ref: &Ref{td.File, td.Name}}
+	}
+	switch ch("rec.wrap", 4) {
+	case 1:
+		target = &TypeRef{Base: "list", Elem: target}
+	case 2:
+		target = &TypeRef{Base: "map", Key: &TypeRef{Base: "string"}, Elem: target}
+	case 3:
+		// through a second struct
+		mid := p.add(f, &Def{Kind: KStruct, Name: p.name("S"), Fields: []*FieldDef{{ID: 1, Name: "back1", Req: ReqOptional, Type: target}}})
+		target = &TypeRef{Ref: &Ref{mid.File, mid.Name}}
+	}
+	id := 1
+	for _, fd := range s.Fields {
+		if fd.ID >= id {
+			id = fd.ID + 1
+		}
+	}
+	s.Fields = append(s.Fields, &FieldDef{ID: id, Name: fmt.Sprintf("self%d", id), Req: ReqOptional, Type: target})
+}
+
+// addDotted adds a local typedef whose name looks include-qualified
+// ("<include>.<Name>") and a struct field referring to it. Thrift scoping looks
+// a full name up locally before splitting it at the first dot.
+func (p *Program) addDotted(o Options) {
+	var cands []*File
+	for _, f := range p.Files {
+		if len(f.Includes) > 0 {
+			cands = append(cands, f)
+		}
+	}
+	if len(cands) == 0 {
+		return
+	}
+	f := cands[ch("dotted.file", len(cands))]
+	inc := p.Files[f.Includes[ch("dotted.include", len(f.Includes))]]
+	name := inc.Base + "." + p.name("Loc")
+	// rarely: shadow a name that really exists in the include
+	if simrt.Flip("dotted.shadow", 0.3) {
+		var types []*Def
+		for _, d := range inc.Defs {
+			if d.Kind == KStruct {
+				types = append(types, d)
+			}
+		}
+		if len(types) > 0 {
+			name = inc.Base + "." + types[ch("dotted.shadowed", len(types))].Name
+		}
+	}
+	td := p.add(f, &Def{Kind: KTypedef, Name: name, Type: &TypeRef{Base: "i64"}})
+	// every reference rendered as that text in f now designates the local typedef
+	for _, d := range f.Defs {
+		p.retarget(f, d, name, td)
+	}
+	p.add(f, &Def{Kind: KStruct, Name: p.name("S"), Fields: []*FieldDef{{ID: 1, Name: "dotted1", Req: ReqOptional, Type: &TypeRef{Ref: &Ref{f.Index, name}}}}})
+}
+
+func (p *Program) retarget(f *File, d *Def, text string, to *Def) {
+	var fix func(t *TypeRef)
+	fix = func(t *TypeRef) {
+		if t == nil {
+			return
+		}
+		if t.Ref != nil && t.Ref.File != f.Index && p.refText(f.Index, t.Ref) == text {
+			t.Ref = &Ref{to.File, to.Name}
+		}
+		fix(t.Key)
+		fix(t.Elem)
+	}
+	fix(d.Type)
+	for _, fd := range d.Fields {
+		fix(fd.Type)
+	}
+	for _, fn := range d.Funcs {
+		fix(fn.Ret)
+		for _, a := range fn.Args {
+			fix(a.Type)
+		}
+		for _, a := range fn.Excs {
+			fix(a.Type)
+		}
+	}
+}
+
+// injectInvalid makes the program uncompilable in one place.
+func (p *Program) injectInvalid() {
+	f := p.Files[ch("invalid.file", len(p.Files))]
+	switch ch("invalid.kind", 3) {
+	case 0:
+		p.add(f, &Def{Kind: KStruct, Name: p.name("S"), Fields: []*FieldDef{{ID: 1, Name: "bad", Req: ReqOptional, Type: &TypeRef{Ref: &Ref{f.Index, "NoSuchType"}}}}})
+		p.Invalid = "unresolvable type reference in " + f.RelPath()
+	case 1:
+		p.add(f, &Def{Kind: KConst, Name: p.name("C"), Type: &TypeRef{Base: "i32"}, Value: &ConstVal{Kind: CRef, Ref: &Ref{f.Index, "NO_SUCH_CONST"}}})
+		p.Invalid = "unresolvable constant reference in " + f.RelPath()
+	default:
+		p.add(f, &Def{Kind: KConst, Name: p.name("C"), Type: &TypeRef{Base: "i32"}, Value: &ConstVal{Kind: CString, Str: "not a number"}})
+		p.Invalid = "ill-typed constant in " + f.RelPath()
+	}
 }
 
 func contains(xs []int, x int) bool {
@@ -241,6 +384,23 @@ func shuffle[T any](xs []T, label string) {
 
 func (p *Program) name(prefix string) string {
 	p.seq++
+	if p.sameNames && p.curFile != nil && simrt.Flip("name.reuse", 0.2) {
+		// reuse a name that another file already uses for the same kind of thing
+		var cands []string
+		for _, f := range p.Files {
+			if f == p.curFile {
+				continue
+			}
+			for _, d := range f.Defs {
+				if strings.HasPrefix(d.Name, prefix) && !strings.Contains(d.Name, ".") && p.Lookup(&Ref{p.curFile.Index, d.Name}) == nil {
+					cands = append(cands, d.Name)
+				}
+			}
+		}
+		if len(cands) > 0 {
+			return cands[ch("name.reuse-pick", len(cands))]
+		}
+	}
 	return fmt.Sprintf("%s%d", prefix, p.seq)
 }
 
@@ -333,6 +493,14 @@ func (p *Program) genFields(f *File, prefix string, max int, o Options, union bo
 			fd.Req = ReqDefault
 		} else {
 			fd.Req = ReqOptional - Req(ch("field.required", 2)) // optional (0) or required (1)
+			if o.Defaults && !union {
+				switch p.KindOf(fd.Type) {
+				case "bool", "int", "double", "string", "enum":
+					if simrt.Flip("field.default", 0.35) {
+						fd.Default = p.genValue(f, fd.Type, o, 1)
+					}
+				}
+			}
 		}
 		out = append(out, fd)
 	}
@@ -341,6 +509,9 @@ func (p *Program) genFields(f *File, prefix string, max int, o Options, union bo
 
 func (p *Program) genDef(f *File, o Options) {
 	kinds := []DefKind{KStruct, KTypedef, KEnum, KService}
+	if o.NoServices {
+		kinds = kinds[:3]
+	}
 	if o.Unions {
 		kinds = append(kinds, KUnion)
 	}
@@ -411,44 +582,183 @@ func (p *Program) genService(f *File, o Options) {
 	p.add(f, d)
 }
 
-// genConst draws a constant of a primitive, enum, list or map type (the
-// conservative subset: values well inside their ranges).
+// RootOf follows typedefs to the ultimate non-typedef type.
+func (p *Program) RootOf(t *TypeRef) *TypeRef {
+	for i := 0; i < 64 && t != nil && t.Ref != nil; i++ {
+		d := p.Lookup(t.Ref)
+		if d == nil || d.Kind != KTypedef {
+			return t
+		}
+		t = d.Type
+	}
+	return t
+}
+
+// Lookup finds the definition a Ref designates.
+func (p *Program) Lookup(r *Ref) *Def {
+	if r == nil || r.File < 0 || r.File >= len(p.Files) {
+		return nil
+	}
+	for _, d := range p.Files[r.File].Defs {
+		if d.Name == r.Name && !d.Removed {
+			return d
+		}
+	}
+	return nil
+}
+
+// Kind classifies the root of a type for constant casting:
+// bool int double string binary enum list set map struct.
+func (p *Program) KindOf(t *TypeRef) string {
+	rt := p.RootOf(t)
+	if rt == nil {
+		return "void"
+	}
+	if rt.Ref != nil {
+		d := p.Lookup(rt.Ref)
+		if d == nil {
+			return "unknown"
+		}
+		if d.Kind == KEnum {
+			return "enum"
+		}
+		return "struct"
+	}
+	switch rt.Base {
+	case "bool", "double", "string", "binary", "list", "set", "map":
+		return rt.Base
+	}
+	return "int"
+}
+
+// constTypes draws a declared type suitable for a constant or a default.
+func (p *Program) genConstType(f *File, o Options) *TypeRef {
+	var named []*Def
+	for _, d := range p.visible(f, KTypedef, KEnum) {
+		switch p.KindOf(&TypeRef{Ref: &Ref{d.File, d.Name}}) {
+		case "bool", "int", "double", "string", "enum":
+			named = append(named, d)
+		}
+	}
+	k := ch("const.type", 9)
+	switch {
+	case k == 0 && len(named) > 0:
+		d := named[ch("const.type-ref", len(named))]
+		return &TypeRef{Ref: &Ref{d.File, d.Name}}
+	case k == 1:
+		return &TypeRef{Base: "string"}
+	case k == 2:
+		return &TypeRef{Base: "bool"}
+	case k == 3:
+		return &TypeRef{Base: "double"}
+	case k == 4:
+		return &TypeRef{Base: "i64"}
+	case k == 5:
+		return &TypeRef{Base: "list", Elem: p.genScalarType(f, named)}
+	case k == 6:
+		return &TypeRef{Base: "set", Elem: &TypeRef{Base: []string{"string", "i32"}[ch("const.set-elem", 2)]}}
+	case k == 7:
+		return &TypeRef{Base: "map", Key: &TypeRef{Base: "string"}, Elem: p.genScalarType(f, named)}
+	}
+	return &TypeRef{Base: "i32"}
+}
+
+func (p *Program) genScalarType(f *File, named []*Def) *TypeRef {
+	if len(named) > 0 && simrt.Flip("const.scalar-named", 0.3) {
+		d := named[ch("const.type-ref", len(named))]
+		return &TypeRef{Ref: &Ref{d.File, d.Name}}
+	}
+	bs := []string{"i32", "string", "double", "bool", "i16"}
+	return &TypeRef{Base: bs[ch("const.scalar", len(bs))]}
+}
+
+// genValue draws a constant value castable to t, from literals and (when
+// allowed) references to visible constants and enum items.
+func (p *Program) genValue(f *File, t *TypeRef, o Options, depth int) *ConstVal {
+	kind := p.KindOf(t)
+	if o.ConstRefs && depth < 3 && simrt.Flip("val.ref", 0.35) {
+		var cands []*Def
+		for _, c := range p.visible(f, KConst) {
+			ck := p.KindOf(c.Type)
+			ok := ck == kind
+			if kind == "double" && ck == "int" {
+				ok = true
+			}
+			if ok && kind == "enum" {
+				ok = sameRef(p.RootOf(t).Ref, p.RootOf(c.Type).Ref)
+			}
+			if ok && (kind == "list" || kind == "set" || kind == "map") {
+				ok = p.TypeText(0, p.RootOf(t)) == p.TypeText(0, p.RootOf(c.Type)) && noNamed(p.RootOf(t))
+			}
+			if ok {
+				cands = append(cands, c)
+			}
+		}
+		if len(cands) > 0 {
+			c := cands[ch("val.ref-pick", len(cands))]
+			return &ConstVal{Kind: CRef, Ref: &Ref{c.File, c.Name}}
+		}
+	}
+	switch kind {
+	case "bool":
+		if simrt.Flip("val.bool-int", 0.2) {
+			return &ConstVal{Kind: CInt, Int: int64(ch("val.bool01", 2))}
+		}
+		return &ConstVal{Kind: CBool, Bool: ch("val.bool", 2) == 1}
+	case "int":
+		return &ConstVal{Kind: CInt, Int: int64(ch("val.int", 200)) - 20}
+	case "double":
+		if simrt.Flip("val.dbl-int", 0.3) {
+			return &ConstVal{Kind: CInt, Int: int64(ch("val.int", 200))}
+		}
+		return &ConstVal{Kind: CDouble, Dbl: fmt.Sprintf("%d.%d", ch("val.dbl", 100), 1+ch("val.dbl-frac", 9))}
+	case "string":
+		return &ConstVal{Kind: CString, Str: fmt.Sprintf("s%d", ch("val.str", 50))}
+	case "enum":
+		e := p.Lookup(p.RootOf(t).Ref)
+		it := e.Items[ch("val.item", len(e.Items))]
+		if simrt.Flip("val.enum-int", 0.25) || !(e.File == f.Index || contains(f.Includes, e.File)) {
+			// an enum that is not in scope by name can only be given by value
+			return &ConstVal{Kind: CInt, Int: int64(it.Value)}
+		}
+		return &ConstVal{Kind: CRef, Ref: &Ref{e.File, e.Name}, Item: it.Name}
+	case "list", "set":
+		rt := p.RootOf(t)
+		v := &ConstVal{Kind: CList}
+		n := ch("val.list-n", 4)
+		for i := 0; i < n; i++ {
+			v.Items = append(v.Items, p.genValue(f, rt.Elem, o, depth+1))
+		}
+		return v
+	case "map":
+		rt := p.RootOf(t)
+		v := &ConstVal{Kind: CMap}
+		n := ch("val.map-n", 3)
+		for i := 0; i < n; i++ {
+			v.Items = append(v.Items, p.genValue(f, rt.Key, o, depth+1), p.genValue(f, rt.Elem, o, depth+1))
+		}
+		return v
+	}
+	return &ConstVal{Kind: CInt, Int: 0}
+}
+
+func sameRef(a, b *Ref) bool { return a != nil && b != nil && a.File == b.File && a.Name == b.Name }
+
+func noNamed(t *TypeRef) bool {
+	if t == nil {
+		return true
+	}
+	if t.Ref != nil {
+		return false
+	}
+	return noNamed(t.Key) && noNamed(t.Elem)
+}
+
+// genConst draws a constant.
 func (p *Program) genConst(f *File, o Options) {
 	d := &Def{Kind: KConst, Name: p.name("C")}
-	k := ch("const.kind", 6)
-	switch k {
-	case 0:
-		d.Type = &TypeRef{Base: "i32"}
-		d.Value = &ConstVal{Kind: CInt, Int: int64(ch("const.int", 1000)) - 100}
-	case 1:
-		d.Type = &TypeRef{Base: "string"}
-		d.Value = &ConstVal{Kind: CString, Str: fmt.Sprintf("s%d", ch("const.str", 50))}
-	case 2:
-		d.Type = &TypeRef{Base: "bool"}
-		d.Value = &ConstVal{Kind: CBool, Bool: ch("const.bool", 2) == 1}
-	case 3:
-		d.Type = &TypeRef{Base: "double"}
-		d.Value = &ConstVal{Kind: CDouble, Dbl: fmt.Sprintf("%d.5", ch("const.dbl", 100))}
-	case 4:
-		enums := p.visible(f, KEnum)
-		if len(enums) == 0 {
-			d.Type = &TypeRef{Base: "i64"}
-			d.Value = &ConstVal{Kind: CInt, Int: int64(ch("const.int", 1000))}
-			break
-		}
-		e := enums[ch("const.enum", len(enums))]
-		d.Type = &TypeRef{Ref: &Ref{e.File, e.Name}}
-		it := e.Items[ch("const.item", len(e.Items))]
-		d.Value = &ConstVal{Kind: CRef, Ref: &Ref{e.File, e.Name}, Item: it.Name}
-	default:
-		d.Type = &TypeRef{Base: "list", Elem: &TypeRef{Base: "i32"}}
-		n := ch("const.list-n", 4)
-		v := &ConstVal{Kind: CList}
-		for i := 0; i < n; i++ {
-			v.Items = append(v.Items, &ConstVal{Kind: CInt, Int: int64(ch("const.int", 100))})
-		}
-		d.Value = v
-	}
+	d.Type = p.genConstType(f, o)
+	d.Value = p.genValue(f, d.Type, o, 0)
 	p.add(f, d)
 }
 
